@@ -367,6 +367,9 @@ func run(c *Case) (*outcome, *vkit.Violation, error) {
 			o.refusals++
 			everRefused[op.Name] = true
 		}
+		if len(cl.Net.HookPanics) > 0 {
+			return o, nil, fmt.Errorf("a hook of the check itself panicked: %s", cl.Net.HookPanics[0])
+		}
 		if len(cl.Net.Panics) > 0 {
 			return o, vkit.Violf("instance-crashed", "%s: %v", where, cl.Net.Panics), nil
 		}
